@@ -615,4 +615,119 @@ theorem resolveGen_built_exact (q : Rec → Bool) (blocks : List (Nat × Nat × 
     rw [← e, hu b' hb' r' hr' hq' hm']
 
 
+/-! ### the lookup tables' entry lists (`RootLookupTables`, `get_entries_by_*`) -/
+
+/-- the observable part of an entry that does not depend on the block order -/
+def Entry.flagsKey (e : Entry) : Nat × Nat × Bytes := (e.locale, e.content, e.ckey)
+
+/-- what was handed to the builder for one map key: (locale, content flags, content key) of every
+inserted record the key selects -/
+def insertedEntries (q : Rec → Bool) (blocks : List (Nat × Nat × List Rec)) : List (Nat × Nat × Bytes) :=
+  blocks.flatMap fun b => (b.2.2.filter q).map fun r => (b.1, b.2.1, r.ckey)
+
+theorem resolveGen_cons (q : Rec → Bool) (b : Block) (rest : List Block) (l c : Nat) :
+    resolveGen q (b :: rest) l c =
+      (if entryMatches b.locale b.content l c then
+        match (b.recs.filter q).head? with
+        | some r => some r.ckey
+        | none => resolveGen q rest l c
+       else resolveGen q rest l c) := by
+  unfold resolveGen
+  simp only [List.flatMap_cons, List.find?_append, List.find?_map]
+  by_cases h : entryMatches b.locale b.content l c = true
+  · simp only [h, if_true]
+    cases hf : b.recs.filter q with
+    | nil => simp
+    | cons r rs => simp [Function.comp_def, h]
+  · simp only [h]
+    have : List.find? ((fun br : Block × Rec => entryMatches br.1.locale br.1.content l c) ∘ fun r => (b, r)) (b.recs.filter q) = none := by
+      simp [List.find?_eq_none, Function.comp_def, h]
+    simp [this]
+
+theorem entries_find_cons (q : Rec → Bool) (b : Block) (rest : List Block) (i l c : Nat) :
+    ((entriesFrom q i (b :: rest)).find? (fun e => entryMatches e.locale e.content l c)).map (·.ckey) =
+      (if entryMatches b.locale b.content l c then
+        match (b.recs.filter q).head? with
+        | some r => some r.ckey
+        | none => ((entriesFrom q (i+1) rest).find? (fun e => entryMatches e.locale e.content l c)).map (·.ckey)
+       else ((entriesFrom q (i+1) rest).find? (fun e => entryMatches e.locale e.content l c)).map (·.ckey)) := by
+  simp only [entriesFrom, List.find?_append, List.find?_map]
+  by_cases h : entryMatches b.locale b.content l c = true
+  · simp only [h, if_true]
+    cases hf : b.recs.filter q with
+    | nil => simp
+    | cons r rs => simp [Function.comp_def, h]
+  · simp only [h]
+    have : List.find? ((fun e : Entry => entryMatches e.locale e.content l c) ∘ fun r => ({ blockIndex := i, locale := b.locale, content := b.content, ckey := r.ckey } : Entry)) (b.recs.filter q) = none := by
+      simp [List.find?_eq_none, Function.comp_def, h]
+    simp [this]
+
+/-- `resolve_by_*` as the code computes it — `find` over the key's entry list — is the first-match
+scan over the blocks -/
+theorem resolveGen_eq_find_entries (q : Rec → Bool) (l c : Nat) : ∀ (bls : List Block) (i : Nat),
+    resolveGen q bls l c = ((entriesFrom q i bls).find? (fun e => entryMatches e.locale e.content l c)).map (·.ckey) := by
+  intro bls
+  induction bls with
+  | nil => intro i; rfl
+  | cons b rest ih =>
+    intro i
+    rw [resolveGen_cons, entries_find_cons, ih (i + 1)]
+
+theorem entriesFrom_flags (q : Rec → Bool) : ∀ (bls : List Block) (i : Nat),
+    (entriesFrom q i bls).map Entry.flagsKey =
+      bls.flatMap fun b => (b.recs.filter q).map fun r => (b.locale, b.content, r.ckey) := by
+  intro bls
+  induction bls with
+  | nil => intro i; rfl
+  | cons b rest ih =>
+    intro i
+    simp only [entriesFrom, List.map_append, List.map_map, List.flatMap_cons, ih (i + 1)]
+    rfl
+
+theorem perm_flatMap_pointwise {α β : Type} (l : List α) (f g : α → List β) (h : ∀ a ∈ l, (f a).Perm (g a)) :
+    (l.flatMap f).Perm (l.flatMap g) := by
+  induction l with
+  | nil => exact List.Perm.refl _
+  | cons a rest ih =>
+    simp only [List.flatMap_cons]
+    exact List.Perm.append (h a (by simp)) (ih fun x hx => h x (by simp [hx]))
+
+/-- the entry list of a key on the built-and-parsed block list is a PERMUTATION of the inserted
+records of that key with their own block's flags: one entry per inserted record, none merged -/
+theorem entries_built_perm (q : Rec → Bool) (blocks : List (Nat × Nat × List Rec)) (i : Nat) :
+    ((entriesFrom q i ((builtBlocks blocks).map fun b => mkBlock b.1 b.2.1 b.2.2)).map Entry.flagsKey).Perm
+      (insertedEntries q blocks) := by
+  rw [entriesFrom_flags]
+  unfold builtBlocks insertedEntries
+  simp only [List.flatMap_map, List.map_map]
+  refine List.Perm.trans (List.Perm.flatMap_right _ (List.mergeSort_perm _ _)) ?_
+  refine perm_flatMap_pointwise _ _ _ ?_
+  intro b _
+  simp only [mkBlock, Function.comp]
+  exact ((List.mergeSort_perm _ _).filter q).map _
+
+/-- every entry names (by `block_index`) a block of the list that has the entry's flags and holds a
+record of the key with the entry's content key; indices start at `i` -/
+theorem entriesFrom_index (q : Rec → Bool) : ∀ (bls : List Block) (i : Nat) (e : Entry), e ∈ entriesFrom q i bls →
+    ∃ b, bls[e.blockIndex - i]? = some b ∧ i ≤ e.blockIndex ∧ e.locale = b.locale ∧ e.content = b.content ∧
+      ∃ r ∈ b.recs, q r = true ∧ r.ckey = e.ckey := by
+  intro bls
+  induction bls with
+  | nil => intro i e h; simp [entriesFrom] at h
+  | cons b rest ih =>
+    intro i e h
+    simp only [entriesFrom, List.mem_append, List.mem_map, List.mem_filter] at h
+    rcases h with ⟨r, ⟨hr, hq⟩, rfl⟩ | h
+    · exact ⟨b, by simp, Nat.le_refl _, rfl, rfl, r, hr, hq, rfl⟩
+    · obtain ⟨b', hb', hi, h1, h2, h3⟩ := ih (i + 1) e h
+      refine ⟨b', ?_, by omega, h1, h2, h3⟩
+      have : e.blockIndex - i = (e.blockIndex - (i + 1)) + 1 := by omega
+      rw [this, List.getElem?_cons_succ]
+      exact hb'
+
+/-- a block's own flags satisfy the query made of them (non-zero locale mask) -/
+theorem entryMatches_self (l c : Nat) (hl : l ≠ 0) : entryMatches l c l c = true := by
+  unfold entryMatches
+  simp [Nat.and_self, hl]
+
 end Cascette.Proofs.RootFile
